@@ -59,6 +59,9 @@ const PKM: &str = r##"{"domain":{"ed25519:1":"XGX0JRS2Af3be3knz2fBiRbApjm2Dh61gX
 
 const HTML1: &str = r##"<mx-reply><blockquote><a href="https://matrix.to/#/!n8f893n9:example.com/$1598361704261elfgc:localhost">In reply to</a> <a href="https://matrix.to/#/@alice:example.com">@alice:example.com</a><br>Previous message</blockquote></mx-reply><h1 id="t">Title</h1><p>This <em>is</em> <span data-mx-color="#ff0000" data-mx-spoiler="r">a</span> <a href="javascript:x" target="_blank">link</a> <img src="mxc://a/b" alt="i" width="1"><font color="red">f</font><code class="language-rust x">c</code></p><ol start="3"><li>i</li></ol><table><tr><td>c</td></tr></table><script>alert(1)</script><del>d</del><strike>s</strike>"##;
 
+/// elements whose attributes the typed view (`to_matrix`) parses: non-ASCII and boundary values
+const HTML_TYPED: &str = "<pre><code class=\"a language-\u{e9}\u{1F980} rust\tx\">c</code></pre><h7>h</h7><h1>h</h1><ol start=\"-3\"><li>i</li></ol><ol start=\"99999999999999999999\"></ol><a href=\"matrix:u/\u{e9}:x?action=\u{e9}\" target=\"\u{e9}\">l</a><a href=\"https://matrix.to/#/%F0%9F\">m</a><span data-mx-color=\"\u{e9}\" data-mx-bg-color=\"#\u{1F980}\" data-mx-spoiler=\"\u{e9} \" data-mx-maths=\"\u{e9}\">s</span><img src=\"mxc://\u{e9}/\u{1F980}\" width=\"\u{e9}\" height=\"-1\" alt=\"\u{e9}\" title=\"\u{1F980}\"><div data-mx-maths=\"\u{e9}\" class=\"\u{e9}\">d</div>";
+
 const DER_V1: &[u8] = &[
     0x30, 0x2e, 0x02, 0x01, 0x00, 0x30, 0x05, 0x06, 0x03, 0x2b, 0x65, 0x70, 0x04, 0x22, 0x04, 0x20, 1, 8, 15, 22, 29,
     36, 43, 50, 57, 64, 71, 78, 85, 92, 99, 106, 113, 120, 127, 134, 141, 148, 155, 162, 169, 176, 183, 190, 197, 204,
@@ -228,7 +231,7 @@ fn entries() -> Vec<Entry> {
         Entry { id: 75, name: "redact", kinds: &[Json, Sel], f: e_redact, seeds: || sp(&[&[EV_MEMBER, "9"], &[EV_MEMBER, "11"], &[EV_POWER, "1"], &[EV_CREATE, "11"], &[EV_JOIN_RULES, "8"]]) },
         Entry { id: 76, name: "Ed25519KeyPair::from_der (ring-compat)", kinds: &[Bytes, Text], f: e_from_der, seeds: seeds_from_der },
         // ---- HTML ---------------------------------------------------------------------------------
-        Entry { id: 80, name: "sanitize_html / remove_html_reply_fallback / Html::{parse, sanitize, to_string}", kinds: &[Html, Sel], f: e_sanitize_html, seeds: || sp(&[&[HTML1, "0"], &[HTML1, "1"], &[HTML1, "2"], &[HTML1, "3"], &[HTML1, "4"], &["<p>a<b>c</p>d</b><svg><a xlink:href='x'>t</a></svg><math><mi>x</mi></math><template><p>t</p></template>", "4"]]) },
+        Entry { id: 80, name: "sanitize_html / remove_html_reply_fallback / Html::{parse, sanitize, to_string}", kinds: &[Html, Sel], f: e_sanitize_html, seeds: || sp(&[&[HTML1, "0"], &[HTML1, "1"], &[HTML1, "2"], &[HTML1, "3"], &[HTML1, "4"], &["<p>a<b>c</p>d</b><svg><a xlink:href='x'>t</a></svg><math><mi>x</mi></math><template><p>t</p></template>", "4"], &[HTML_TYPED, "4"]]) },
         // ---- HTTP messages ------------------------------------------------------------------------
         Entry { id: 90, name: "IncomingRequest::try_from_http_request (any of 226 endpoints)", kinds: &[Sel, Sel, Text, Bytes, Text, Json], f: e_http_request, seeds: http_request_seeds },
         Entry { id: 91, name: "IncomingResponse::try_from_http_response (any of 226 endpoints)", kinds: &[Sel, Sel, Bytes, Json], f: e_http_response, seeds: http_response_seeds },
